@@ -22,7 +22,6 @@ from checks import datalog_common as dc
 STORES = ["simple", "indexed", "multi", "array"]
 GUARD_MS = 20000           # wall-clock guard per evaluation (normal runs take milliseconds)
 SIZING_LIMIT = 300         # phase 1: "is the program finite, and how many facts does it create"
-OFUEL = 60                 # rounds per stratum granted to the unlimited oracle run
 HERE = os.path.dirname(os.path.abspath(__file__))
 
 X, Y, Z, K, W = dc.var(1), dc.var(2), dc.var(3), dc.var(4), dc.var(5)
@@ -309,7 +308,7 @@ def cq_obs(o):
 def cq_case(prog, o, limit):
     return coq(C("mkCase", dc.cq_program(prog), layers_from_go(o),
                  [dc.cq_fact(f) for f in prog.get("pre", [])],
-                 [dc.cq_fact(f) for f in prog.get("init", [])], limit, OFUEL, cq_obs(o)))
+                 [dc.cq_fact(f) for f in prog.get("init", [])], limit, cq_obs(o)))
 
 
 def parse_tokens(toks):
@@ -334,7 +333,7 @@ VERDICT = {
     2: "(a) nil error, but the store differs from the model's complete result (= least model, limit_ok_complete)",
     3: "Go stopped with an error where the model finishes (a spurious stop is allowed by the property)",
     4: "Go returned nil with the complete model where the model reports an error",
-    5: "(a) nil error where the model stops with an error, and the store is not the least model",
+    5: "(a) nil error where the model stops with an error, and the store is not closed under the rules (not a model)",
     7: "both stop with an error, the stores at return differ",
     8: "(b) no return within the wall-clock guard",
     9: "model out of fuel (excluded by limit_terminates)",
@@ -509,7 +508,8 @@ def run(ck):
             rep["why_violation"] = {
                 2: "Props/C17.v limit_ok_complete: an Ok result of the model is the result of the unlimited engine, "
                    "i.e. the least model (C01); Go returned nil with a different store",
-                5: "Go returned nil; the unlimited model does not reproduce Go's store as the least model",
+                5: "Go returned nil, but its store is not closed under the program's rules (Run.C17.closed_under_rules): "
+                   "a rule instance holds in the store and its head is missing, so the store is not a model",
                 8: "every evaluation under a fact limit must return (limit_terminates for the model); Go did not "
                    "within %d ms" % GUARD_MS,
                 10: "Props/C17.v limit_bound: store at return <= |E| + (max rules per stratum + 2) * L"}[v]
